@@ -8,7 +8,9 @@ evaluate a model's own kernel on given inputs (``kernel(xs).to_dense()`` as the 
 Sections (``only=`` selects one):
   kernels      Gram matrices K(x, x) of every exported CPU kernel that is positive definite on its documented domain, with a duplicated row,
                a row 1e-9 and a row 1e-6 (relative to the input range) away from another row, random hyper-parameters in three lengthscale
-               regimes (short / unit / long), kernel batch shapes () and (2,), called as k(x) and k(x, x.clone()): symmetric, PSD.
+               regimes (short / unit / long), kernel batch shapes () and (2,), called as k(x), k(x, x.clone()) and k(x.requires_grad_()) (the
+               generic autograd branch of the stationary kernels): symmetric, PSD.  Plus a deterministic (seed-independent) lengthscale scan of
+               the two kernels with a kink at distance 0 (Matern-1/2, PiecewisePolynomial q = 0) on fixed inputs with coincident rows.
   exact        ExactGP with DefaultPredictionStrategy kernels (RBF, Matern-1/2, additive, product, spectral mixture, linear), RFF, SGPR
                (InducingPointKernel), KISS-GP (GridInterpolationKernel); GaussianLikelihood (noise at the constraint bound 1e-4, 1e-2, 1) and
                FixedNoiseGaussianLikelihood (noises down to the min_fixed_noise clamp); fast_pred_var off / on; training inputs with duplicated and
@@ -1021,7 +1023,10 @@ def run(tier="quick", seed=0, only=None):
                     with torch.no_grad():
                         marg = lik(lat)
                     noise_added(key, marg, lat, floor, dict(inp0, statement="likelihood.noise = noise"))
-            guarded(f"{base}/noise_setter", f_setter, inp0)
+            # NOT held against the code: FixedNoiseGaussianLikelihood has no constraint on its fixed noise; settings.min_fixed_noise is
+            # documented as a rounding applied when the likelihood is CONSTRUCTED (with a warning).  Noise assigned later or passed at
+            # call time is the user's, and the property speaks of a likelihood's "constraint's lower bound" only.  (The first version of
+            # this sweep demanded the floor there too: over-demand, removed; see DESIGN.md 10.4.)
 
             def f_call():
                 key = f"{base}/call_time_noise"
@@ -1030,7 +1035,6 @@ def run(tier="quick", seed=0, only=None):
                     with torch.no_grad():
                         marg = lik(lat, noise=tiny.clone())
                     noise_added(key, marg, lat, floor, dict(inp0, statement="likelihood(latent, noise=noise)"))
-            guarded(f"{base}/call_time_noise", f_call, inp0)
 
             def f_fant():
                 key = f"{base}/get_fantasy_likelihood"
